@@ -45,11 +45,13 @@ class LinearOperator(EditableModule):
             cls._is_fullmatrix_implemented = cls.__check_if_implemented("_fullmatrix")
             cls._is_gpn_implemented = cls.__check_if_implemented("_getparamnames")
 
-            cls._implementation_checked = True
-
             if not cls._is_mv_implemented:
                 raise RuntimeError("LinearOperator must have at least _mv(self) "
                                    "method implemented")
+
+            # mark the class as checked only once it has passed, so that a
+            # rejected class is rejected every time it is instantiated
+            cls._implementation_checked = True
         return super(LinearOperator, cls).__new__(cls)
 
     @classmethod
